@@ -17,6 +17,7 @@ Scatter(gk) == {<<(gi * 37 + gk * 11) % 64, (gi * gi * 5 + gi * 3 + gk) % 64>> :
 Grids == [empty |-> {}, c00 |-> {<<0,0>>}, c63_0 |-> {<<63,0>>}, c0_63 |-> {<<0,63>>}, c63_63 |-> {<<63,63>>},
           t10 |-> {<<1,0>>}, t01 |-> {<<0,1>>}, corners |-> {<<0,0>>, <<63,0>>, <<0,63>>, <<63,63>>},
           pair |-> {<<2,5>>, <<7,2>>},                                   \* not symmetric under transposition
+          strip |-> {<<60, 0>>} \cup {<<gx, 1>> : gx \in 3..8},            \* asymmetric; holes("some") on the first tile, six tiles after it
           row0 |-> {<<gx, 0>> : gx \in 0..63}, col0 |-> {<<0, gy>> : gy \in 0..63},
           rowlast |-> {<<gx, 63>> : gx \in 0..63}, collast |-> {<<63, gy>> : gy \in 0..63},
           lshape |-> {<<gx, 2>> : gx \in 0..9} \cup {<<5, gy>> : gy \in 3..40},
@@ -24,7 +25,7 @@ Grids == [empty |-> {}, c00 |-> {<<0,0>>}, c63_0 |-> {<<63,0>>}, c0_63 |-> {<<0,
           border |-> {gt \in All : gt[1] \in {0, 63} \/ gt[2] \in {0, 63}},
           scatter |-> Scatter(Seed % 13), scatter2 |-> Scatter((Seed * 7 + 5) % 23),
           checker |-> {gt \in All : (gt[1] + gt[2]) % 2 = 0}, stripes |-> {gt \in All : gt[1] % 3 = 0}, dense |-> All]
-LightSeq == <<"empty", "c00", "c63_0", "c0_63", "c63_63", "t10", "t01", "corners", "pair", "row0", "col0", "rowlast", "collast",
+LightSeq == <<"empty", "c00", "c63_0", "c0_63", "c63_63", "t10", "t01", "corners", "pair", "strip", "row0", "col0", "rowlast", "collast",
               "lshape", "halfdiag", "border", "scatter", "scatter2">>
 HeavySeq == <<"checker", "stripes", "dense">>
 NL == Len(LightSeq)
@@ -35,17 +36,17 @@ GridLists == [gg \in GridNames |-> TileOrder(Grids[gg])]                 \* eval
 WdtVers == {WdtVersions[gi] : gi \in 1..Len(WdtVersions)}
 ExtraFlags == {{}, {2}, {4}, {8}, {16}, {32}, {64}, {128}, {256}, {32768}, {2, 4, 8}, {2, 16, 64, 128, 256}}
 NameClasses == {<<>>, <<1>>, <<24>>, <<17, 3, 40>>, <<200, 9>>}
-\* only combinations that can be valid are built (the filter WdtValid still decides)
+\* only combinations that can be structurally valid are built (the filter WdtStructValid still decides)
 WdtBases ==
     {gd \in UNION {
         {[ver |-> gv, flags |-> gx \cup (IF gw THEN {1} ELSE {}) \cup (IF gm > 0 THEN {512} ELSE {}),
           hasMwmo |-> gw \/ HasTerrainMwmo(gv), names |-> gn,
           hasModf |-> gw, nModf |-> gf, hasMaid |-> gm > 0, nSec |-> gm, tiles |-> {}] :
-           gx \in {gxx \in ExtraFlags : FlagsValidFor(gxx, gv)},
+           gx \in ExtraFlags,                                  \* flags are free: validate() only warns
            gm \in IF HasMaidChunk(gv) THEN {0, 5, 8} ELSE {0},
            gn \in IF gw \/ HasTerrainMwmo(gv) THEN NameClasses ELSE {<<>>},
            gf \in IF gw THEN {0, 1, 3} ELSE {0}} : gv \in WdtVers, gw \in BOOLEAN} :
-       WdtValid(gd)}
+       WdtStructValid(gd)}
 WdtBaseSeq == SetToSeq(WdtBases)
 NWB == Len(WdtBaseSeq)
 
@@ -76,7 +77,7 @@ LPlain(gd) == gd.names \in {<<>>, <<24>>} /\ gd.nIdx \in {0, 1} /\ gd.nPlace \in
 \* end of every chain goes through write -> walk -> MAOF -> parse -> rewrite like a freshly built one.
 \* "full" cases get every A -> B -> A plus six rotating A -> B -> C; every other case gets two rotating chains.
 WdtFullChains(gb, gg) == gg = "pair" /\ Plain(gb) /\ gb.flags \subseteq {1, 512}
-WdlFullChains(gb, gg) == gg = "corners" /\ LPlain(gb) /\ gb.mode = "same" /\ gb.nMldd = 0
+WdlFullChains(gb, gg) == gg = "strip" /\ LPlain(gb) /\ gb.mode = "same" /\ gb.nMldd = 0
 VAt(gvs, gk) == gvs[(gk % Len(gvs)) + 1]
 Aba(gvs, gv) == {<<gvs[gk], gv>> : gk \in {gkk \in 1..Len(gvs) : gvs[gkk] # gv}}
 Abc(gvs, gi, gcount) == {<<VAt(gvs, gi + gj), VAt(gvs, gi * 3 + gj * 7 + 1)>> : gj \in 0..(gcount - 1)}
@@ -101,7 +102,7 @@ WdlSlices ==
     \cup {<<gd, LightSeq[gi]>> : gd \in {gb \in WdlBases : LPlain(gb) /\ gb.ver \in {"Vanilla", "Wotlk", "Legion"} /\ gb.holesCls \in {"none", "some"}
                                                             /\ gb.names = <<>> /\ gb.nMldd = 0 /\ gb.mode = "same"},
                                  gi \in 1..NL}
-    \cup {<<gd, "corners">> : gd \in {gb \in WdlBases : WdlFullChains(gb, "corners")}}                                \* conversion histories
+    \cup {<<gd, "strip">> : gd \in {gb \in WdlBases : WdlFullChains(gb, "strip")}}                                \* conversion histories
 \* seed-rotated sample: the gj-th draw takes base (Seed*131 + salt + gj*stride) mod N and grid (gj + Seed*5) mod |grids|
 Draw(gseq, gn, gcount, gsalt, ggrids) ==
     LET gstride == IF gn % 997 = 0 THEN 991 ELSE 997 IN
@@ -127,11 +128,28 @@ WdlCase(gp, gi) == LET gd == gp[1] IN
                 conv |-> WdlVersions, chains |-> WdlChains(gp, gi)]
 CoordCase == [kind |-> "coord"]
 
+\* ---- header flags: every single bit and every pair of bits x every version x map kind (x MAID where the version has
+\* it), through write -> parse -> write only (no conversions): the second write must be byte-identical whatever the
+\* flags make the reader believe about the version.  Bits 0x0001 / 0x0200 are the structural ones (map kind / MAID).
+FreeBits == {2, 4, 8, 16, 32, 64, 128, 256, 1024, 2048, 4096, 8192, 16384, 32768}
+Singles == {{gb} : gb \in FreeBits}
+Pairs == {{ga, gb} : ga \in FreeBits, gb \in FreeBits} \ Singles
+PairSeq == SetToSeq(Pairs)
+PairsChosen == IF Thorough THEN Pairs ELSE {PairSeq[gi] : gi \in {gj \in 1..Len(PairSeq) : (gj + Seed) % 3 = 0}} \cup {{64, 128}, {2, 64}}
+FlagDefs == {gd \in {[ver |-> gv, flags |-> gx \cup (IF gw THEN {1} ELSE {}) \cup (IF gm > 0 THEN {512} ELSE {}),
+                       hasMwmo |-> gw \/ HasTerrainMwmo(gv), names |-> IF gw THEN <<24>> ELSE <<>>,
+                       hasModf |-> gw, nModf |-> IF gw THEN 1 ELSE 0, hasMaid |-> gm > 0, nSec |-> gm, tiles |-> {}] :
+                      gv \in WdtVers, gx \in {{}} \cup Singles \cup PairsChosen, gw \in BOOLEAN, gm \in {0, 8}} : WdtStructValid(gd)}
+FlagCase(gd) == [kind |-> "wdt", ver |-> gd.ver, flags |-> SetToSeq(gd.flags), hasMwmo |-> gd.hasMwmo, names |-> gd.names,
+                 hasModf |-> gd.hasModf, nModf |-> gd.nModf, hasMaid |-> gd.hasMaid, nSec |-> gd.nSec,
+                 grid |-> "t01", tiles |-> GridLists["t01"], layout |-> WdtChunkSpecs(gd), conv |-> <<>>, chains |-> <<>>]
+FlagSeq == SetToSeq(FlagDefs)
+
 WdtSeq == SetToSeq(WdtChosen)
 WdlSeq == SetToSeq(WdlChosen)
-Cases == <<CoordCase>> \o [gi \in 1..Len(WdtSeq) |-> WdtCase(WdtSeq[gi], gi)] \o [gi \in 1..Len(WdlSeq) |-> WdlCase(WdlSeq[gi], gi)]
+Cases == <<CoordCase>> \o [gi \in 1..Len(FlagSeq) |-> FlagCase(FlagSeq[gi])] \o [gi \in 1..Len(WdtSeq) |-> WdtCase(WdtSeq[gi], gi)] \o [gi \in 1..Len(WdlSeq) |-> WdlCase(WdlSeq[gi], gi)]
 GInit == vfmt = "gen" /\ vdef = 0 /\ vpc = "" /\ vcf = 0 /\ vrd = 0 /\ vrpos = 0 /\ vmaof = 0
 GNext == UNCHANGED mvars
 ASSUME ndJsonSerialize(IOEnv.CASES, Cases)
-ASSUME PrintT(<<"GENERATED", Len(Cases), NWB, NLB, Len(WdtSeq), Len(WdlSeq)>>)
+ASSUME PrintT(<<"GENERATED", Len(Cases), NWB, NLB, Len(WdtSeq), Len(WdlSeq), Len(FlagSeq)>>)
 =============================================================================
